@@ -199,6 +199,137 @@ def resume_case(job):
             'grammar': gname, 'behaviour': {'resume': text, 'lexer': lexer, 'skipped': skipped}}
 
 
+# ---- interactive parsers that lex their own text, forked on the way (InteractiveLex.tla) -------------------------------
+ILEX_CFG = '''SPECIFICATION Spec
+CONSTANTS
+  MaxHandles = %(H)d
+  MaxOps = %(N)d
+  TextLen = 4
+  RebindOnCopy = %(rb)s
+INVARIANT NoSkip
+INVARIANT ResultOwn
+%(export)s
+CHECK_DEADLOCK FALSE
+'''
+ILEX_TRACE_CFG = '''SPECIFICATION TraceSpec
+CONSTANTS
+  MaxHandles = 99
+  MaxOps = 99
+  TextLen = 4
+  RebindOnCopy = TRUE
+INVARIANT VerdictOk
+CHECK_DEADLOCK FALSE
+'''
+ILEX_GRAMMARS = {
+    'words': ('start: WORD+\nWORD: /[a-z]+/\n%ignore /[ \\n]+/\n', {}, ['ab cd ef gh', 'a\nb c\n d', ' ab\n\ncd e f ']),
+    'star-keepall': ('start: item*\nitem: A | B _C?\nA: "a"\nB: "b"\n_C: "c"\n%ignore " "\n', {'keep_all_tokens': True}, ['abca', 'a bc a', 'bcbc']),
+    'inline-leftrec': ('start: _items\n_items: item | _items item\nitem: A | B | _C\nA: "a"\nB: "b"\n_C: "c"\n%ignore /\\n/\n', {'keep_all_tokens': True},
+                       ['abca', 'a\nb\nc\na', 'cccc']),
+}
+
+
+def ilex_replay(job):
+    """job = (grammar name, text, lexer, ops) -> trace case: after every op, which tokens each live handle has been fed"""
+    import logging
+    logging.disable(logging.CRITICAL)
+    from lark import Lark, Tree, Token
+    gname, text, lexer, ops = job
+    gtext, opts, _ = ILEX_GRAMMARS[gname]
+    global _ILEX
+    try:
+        _ILEX
+    except NameError:
+        _ILEX = {}
+    if (gname, lexer) not in _ILEX:
+        _ILEX[(gname, lexer)] = Lark(gtext, parser='lalr', lexer=lexer, **opts)
+    p = _ILEX[(gname, lexer)]
+    index = {t.start_pos: i + 1 for i, t in enumerate(p.lex(text))}
+
+    def tokens_of(v, acc):
+        if isinstance(v, Token):
+            acc.append(index.get(v.start_pos, -1))
+        elif isinstance(v, Tree):
+            for c in v.children:
+                tokens_of(c, acc)
+        elif isinstance(v, (list, tuple)):
+            for c in v:
+                tokens_of(c, acc)
+        return acc
+    real = {1: p.parse_interactive(text)}
+    result = {}
+    steps = []
+    for o in ops:
+        h, op, new = o['h'], o['op'], o['new']
+        exc = ''
+        try:
+            if op == 'step':
+                for tok in real[h].lexer_thread.lex(real[h].parser_state):
+                    real[h].feed_token(tok)
+                    break
+            elif op == 'copy':
+                real[new] = real[h].copy()
+            elif op == 'immutable':
+                real[new] = real[h].as_immutable().as_mutable()
+            elif op == 'resume':
+                result[h] = real[h].resume_parse()
+            elif op == 'exhaust':
+                rest = real[h].exhaust_lexer()
+                result[h] = real[h].feed_eof(rest[-1] if rest else None)
+        except Exception as e:
+            exc = type(e).__name__
+        fed = [[hh, sorted(tokens_of(result[hh], [])) if hh in result else tokens_of(list(real[hh].parser_state.value_stack), [])] for hh in sorted(real)]
+        steps.append({'o': o, 'fed': fed, 'exc': exc})
+    return {'steps': steps, 'grammar': gname, 'behaviour': {'ilex': ops, 'text': text, 'lexer': lexer}}
+
+
+def ilex_phase(tier, rng, ev, rep, tmp):
+    H, N = (3, 5) if tier == 'quick' else (3, 7)
+    res = C.tlc('InteractiveLex', ILEX_CFG % dict(H=H, N=N, rb='TRUE', export='INVARIANT Export'), timeout=3000)
+    C.tlc_must_run(res, 'InteractiveLex')
+    ev.add_tlc('InteractiveLex H=%d N=%d TextLen=4 (copied state refers to the copied lexer thread)' % (H, N), res, 'design')
+    if not res.ok:
+        raise C.MachineryFailure('InteractiveLex: %s violated' % res.violated)
+    r2 = C.tlc('InteractiveLex', ILEX_CFG % dict(H=2, N=4, rb='FALSE', export=''), timeout=600, workers=2)
+    C.tlc_must_run(r2, 'InteractiveLex (state keeps the original lexer thread)')
+    ev.cov['binding_selftest']['model_rejects_shared_lexer_thread'] = bool(r2.violated)
+    if not r2.violated:
+        raise C.MachineryFailure('InteractiveLex.tla accepts the shared-lexer-thread design: the model is vacuous')
+    behs = [json.loads(x)['ops'] for x in res.prints]
+    ev.count('ilex_behaviours_exported_by_TLC', len(behs))
+    cap = C.scale(2500 if tier == 'quick' else 40000)
+    if len(behs) > cap:
+        behs = rng.sample(behs, cap)
+    jobs = []
+    for bi, b in enumerate(behs):
+        for gi, (g, (_, _, texts)) in enumerate(sorted(ILEX_GRAMMARS.items())):
+            jobs.append((g, texts[(bi + gi) % len(texts)], ('basic', 'contextual')[(bi + gi) % 2], b))
+    cases = C.pmap(ilex_replay, jobs)
+    ev.count('ilex_replays', len(cases))
+    ev.count('ilex_handle_observations', sum(len(s['fed']) for c in cases for s in c['steps']))
+    ev.count('ilex_finished_handles', sum(1 for c in cases for s in c['steps'] if s['o']['op'] in ('resume', 'exhaust')))
+    ev.cov['traces_validated_against_impl'] = ev.cov.get('traces_validated_against_impl', 0) + len(cases)
+    ilex_judge(cases, ev, rep, tmp, 'ilex')
+
+
+def ilex_judge(cases, ev, rep, tmp, name):
+    CH = 3000
+    jobs = []
+    for off in range(0, len(cases), CH):
+        chunk = cases[off:off + CH]
+        jobs.append((chunk, C.write_batch({'cases': [{'steps': c['steps']} for c in chunk]}, tmp, 'c13_%s_%d.json' % (name, off))))
+    results = C.tlc_parallel('TraceILex', ILEX_TRACE_CFG, [j[1] for j in jobs], continue_=True, timeout=3000)
+    for (chunk, path), res in zip(jobs, results):
+        C.tlc_must_run(res, 'TraceILex')
+        ev.add_tlc('TraceILex:%s' % name, res, 'trace')
+        os.remove(path)
+        if res.violated and not res.verdicts:
+            raise C.MachineryFailure('TraceILex violation without VERDICT line')
+        for v in sorted(set(tuple(x) for x in res.verdicts)):
+            c = chunk[int(v[0]) - 1]
+            rep.violation({'property': PID, 'clause': v[2], 'step': int(v[1]), 'grammar_name': c['grammar'], 'grammar': ILEX_GRAMMARS[c['grammar']][0],
+                           'options': ILEX_GRAMMARS[c['grammar']][1], 'behaviour': c['behaviour'], 'observed': c['steps'][int(v[1]) - 1]})
+
+
 def judge(cases, ev, rep, tmp, name):
     CH = 3000
     jobs = []
@@ -226,6 +357,10 @@ def body(tier, seed, replay_file):
     try:
         if replay_file:
             case = json.load(open(replay_file))
+            if 'ilex' in case['behaviour']:
+                b = case['behaviour']
+                ilex_judge([ilex_replay((case['grammar_name'], b['text'], b['lexer'], b['ilex']))], ev, rep, tmp, 'replay')
+                return rep.finish()
             if 'resume' in case['behaviour']:
                 got = resume_case((case['grammar_name'], case['behaviour']['lexer'], case['behaviour']['resume']))
             else:
@@ -281,6 +416,7 @@ def body(tier, seed, replay_file):
         ev.sample(sample)
         ev.sample({'resume': rcases[3]['behaviour'], 'grammar': rcases[3]['grammar']})
         judge(rcases, ev, rep, tmp, 'resume')
+        ilex_phase(tier, rng, ev, rep, tmp)
         ev.assumptions += ['fork state compared through a digest of (state stack, value stack with token positions and tree meta)',
                            'resume: the on_error hook skips every unexpected token; result compared with parse() of the text without them (types and values)']
         return rep.finish()
